@@ -245,7 +245,7 @@ Example keyset_id_vector :
      (8, hexs "02fdfd6796bfeac490cbee12f778f867f0a2c68f6508d17c649759ea0dc3547528");
      (2, hexs "03fd4ce5a16b65576145949e6f99f445f8249fee17c606b688b504a849cdc452de")]
   = str "00456a94ab4e1c46".
-Proof. vm_compute. reflexivity. Qed.
+Proof. vm_check. Qed.
 
 (* numeric order is not the lexical order of the decimal amounts (10 < 9 as strings):
    the two arrangements give different ids, and the implementation gives the numeric one *)
